@@ -582,6 +582,13 @@ func init() {
 		}
 		return TupleV{IfaceV{}, ex.ts.False}
 	})
+	reg("(*sync.Map).Clear", func(ex *Exec, _ *frame, _ *ssa.Function, a []Value) Value {
+		m := smap(ex, a[0])
+		for _, e := range m.live() {
+			ex.mapDelete(m, e.k)
+		}
+		return nil
+	})
 	reg("(*sync.Map).Range", func(ex *Exec, fr *frame, _ *ssa.Function, a []Value) Value {
 		m := smap(ex, a[0])
 		ents := m.live()
